@@ -50,6 +50,9 @@ type Case struct {
 	// InitSize: the client's Config.InitialPacketSize (0 = default 1280; 1200 is the smallest size RFC 9000 14.1
 	// allows for a datagram carrying an Initial packet and the smallest the Config accepts)
 	InitSize int `json:"init_size,omitempty"`
+	// RejectHow (scenario 0rtt-reject): "" = the restarted server's stream limit shrank below the remembered one;
+	// "disabled" = same limits, but the restarted server's Config has Allow0RTT off (same ticket keys)
+	RejectHow string `json:"reject_how,omitempty"`
 }
 
 var curT *testing.T
@@ -98,6 +101,9 @@ func genCase(t *rapid.T) Case {
 		c.Inj = append(c.Inj, in)
 	}
 	c.InitSize = rapid.SampledFrom([]int{0, 0, 0, 1200, 1200, 1201, 1252, 1350}).Draw(t, "initsize")
+	if c.Scenario == "0rtt-reject" {
+		c.RejectHow = rapid.SampledFrom([]string{"", "disabled"}).Draw(t, "rejecthow")
+	}
 	return c
 }
 
@@ -388,6 +394,11 @@ func runCase(c Case, u *vf.Unit) *vf.Verdict {
 			sconf2 := qconf()
 			sconf2.Allow0RTT = true
 			sconf2.MaxIncomingStreams = 3
+			if c.RejectHow == "disabled" {
+				sconf2.Allow0RTT = false
+				sconf2.MaxIncomingStreams = 0 // (default, as for the ticket-issuing listener)
+				u.Class("0rtt-reject:allow0rtt-off")
+			}
 			ln, err = st.ListenEarly(stls, sconf2)
 			if err != nil {
 				cleanup()
@@ -648,7 +659,7 @@ func runCase(c Case, u *vf.Unit) *vf.Verdict {
 				return bad("C13/0rtt/rejected-but-delivered", "the client was told Err0RTTRejected but the server application received the 0-RTT data")
 			}
 			if c.Scenario == "0rtt-reject" && ss.Used0RTT {
-				return bad("C13/0rtt/accepted-after-config-change", "server reports Used0RTT although its stream limit shrank below the remembered one")
+				return bad("C13/0rtt/accepted-after-config-change", "server reports Used0RTT although the restarted server must reject early data (reject_how %q: stream limit below the remembered one / Allow0RTT off)", c.RejectHow)
 			}
 			if cs.Used0RTT && ss.Used0RTT && n == 0 && res.zeroRTTWriteErr == nil && !lossy && !iniForgery && context.Cause(res.cconn.Context()) == nil {
 				return bad("C13/0rtt/accepted-but-lost", "0-RTT accepted on both sides, the client wrote and closed the stream without error, but the server application never received the data")
